@@ -128,7 +128,7 @@ def run(ctx):
         payload_len = len(hdr) + sum(len(R2.encode_record(x)) for x in recs)
         cuts = sorted(r.randint(1, max(1, payload_len - 1)) for _ in range(r.choice([0, 1, 3, 6])))
         data, payload = R2.encode_bam(refs, recs, cuts)
-        path = ctx.path("x.bam")
+        path = ctx.reuse_path("x.bam") if case["seed"] % 2 else ctx.path("x.bam")      # half of the files replace an earlier BAM (other header, other records) under the same path
         with open(path, "wb") as f:
             f.write(data)
         wit = {"seed": case["seed"], "n_refs": n_refs, "n_records": n, "cuts": cuts, "first_record": {k: (v if not isinstance(v, bytes) else v.hex()) for k, v in recs[0].items()} if recs else None}
@@ -194,6 +194,8 @@ def run(ctx):
             sels = [("whole", list(range(n)), lambda t: t)]
             if n:
                 sels += [("mask", [i for i in range(n) if i % 2 == 0], lambda t: t[np.arange(n) % 2 == 0]),
+                         ("list-mask", [i for i in range(n) if i % 3 != 1], lambda t: t[[i % 3 != 1 for i in range(n)]]),
+                         ("list-rows", [n - 1, 0], lambda t: t[[n - 1, 0]]),
                          ("slice", list(range(n))[1:], lambda t: t[1:]), ("reversed", list(range(n))[::-1], lambda t: t[::-1])]
                 perm = r.sample(range(n), n)
                 sels.append(("fancy", perm + perm[:1], lambda t: t[np.array(perm + perm[:1])]))
